@@ -86,13 +86,42 @@ def theorem_names(v_path):
     return re.findall(r'^\s*(?:Theorem|Lemma|Corollary|Example)\s+(\w+)', txt, re.M)
 
 
+def vo_deps(target):
+    """transitive .v dependencies of a compiled file, from coq_makefile's dependency file"""
+    dep = {}
+    try:
+        with open(os.path.join(COQ, '.Makefile.d')) as fh:
+            txt = fh.read().replace('\\\n', ' ')
+    except OSError:
+        return set()
+    for line in txt.splitlines():
+        if ':' not in line:
+            continue
+        lhs, rhs = line.split(':', 1)
+        outs = [x for x in lhs.split() if x.endswith('.vo')]
+        ins = [x for x in rhs.split() if x.endswith('.vo')]
+        for o in outs:
+            dep.setdefault(o, set()).update(ins)
+    seen, todo = set(), [target]
+    while todo:
+        x = todo.pop()
+        for y in dep.get(x, ()):
+            if y not in seen:
+                seen.add(y)
+                todo.append(y)
+    return set(x[:-1] for x in seen)      # .vo -> .v
+
+
 def proof_status(prop, make_log):
-    """obligations of a property: the theorems of props/<prop>.v and of the generated-table
-    obligations (proofs/GenOk.v).  Returns dict."""
+    """obligations of a property: the theorems of props/<prop>.v, which include the side conditions
+    on the generated constants and tables that the property's theorems assume (proofs/Gen*.v,
+    re-proved against the sources of this run).  props/<prop>.vo is up to date only when every
+    file it depends on compiled.  Returns dict."""
     pfile = os.path.join(COQ, 'props', prop + '.v')
-    gfile = os.path.join(COQ, 'proofs', 'GenOk.v')
     obl, done, failed = [], [], []
-    for f in (gfile, pfile):
+    deps = vo_deps('props/%s.vo' % prop)
+    gens = sorted(d for d in deps if d.startswith('proofs/Gen'))
+    for f in [os.path.join(COQ, g) for g in gens] + [pfile]:
         if not os.path.exists(f):
             continue
         names = theorem_names(f)
@@ -106,11 +135,14 @@ def proof_status(prop, make_log):
         r = sh('timeout 600 coqc -Q . Frugal props/%s.v' % prop, cwd=COQ, check=False)
         assumptions = ' '.join(r.stdout.split())[:2000]
     first_error = ''
-    m = re.search(r'File "([^"]+)", line (\d+)[^\n]*\n(Error:[^\n]*(?:\n[^\n]+){0,3})', make_log)
-    if m:
+    for m in re.finditer(r'File "([^"]+)", line (\d+)[^\n]*\n(Error:[^\n]*(?:\n[^\n]+){0,3})', make_log):
+        f = os.path.normpath(m.group(1))
+        if failed and f not in deps and f != 'props/%s.v' % prop:
+            continue        # an error in a file this property does not depend on
         first_error = '%s:%s %s' % (m.group(1), m.group(2), ' '.join(m.group(3).split()))[:600]
+        break
     return {'obligations': obl, 'discharged': done, 'failed_files': failed, 'assumptions': assumptions,
-            'first_error': first_error}
+            'first_error': first_error, 'depends_on': sorted(deps)}
 
 
 # ------------------------------------------------------------------ verdicts
@@ -125,11 +157,11 @@ DECISIVE = {
     'C05': {'panic', 'crash', 'corr-ok-vs-err', 'corr-err-vs-ok', 'ref-err-vs-ok', 'ref-ok-vs-err', 'prop-alloc', 'prop-time'},
     'C06': {'prop-memory', 'prop-memory-changed', 'corr-span', 'corr-value', 'prop-input-alias', 'panic', 'crash'},
     'C07': {'ref-value', 'ref-err-vs-ok', 'ref-ok-vs-err', 'corr-value', 'corr-n', 'corr-err-vs-ok', 'corr-ok-vs-err', 'corr-bytes', 'corr-size', 'prop-rt-value', 'prop-size', 'prop-invalid-size',
-            'prop-invalid-enc', 'prop-invalid-dec', 'prop-valid-rejected', 'corr-errfield', 'corr-errclass', 'panic', 'crash'},
-    'C08': {'corr-value', 'corr-n', 'corr-err-vs-ok', 'corr-ok-vs-err', 'corr-bytes', 'corr-size', 'prop-rt-value', 'prop-size', 'prop-deadlock',
+            'prop-invalid-enc', 'prop-invalid-dec', 'prop-valid-rejected', 'corr-errfield', 'corr-errclass', 'corr-sizepanic', 'corr-encerr', 'panic', 'crash'},
+    'C08': {'corr-sizepanic', 'corr-encerr', 'corr-value', 'corr-n', 'corr-err-vs-ok', 'corr-ok-vs-err', 'corr-bytes', 'corr-size', 'prop-rt-value', 'prop-size', 'prop-deadlock',
             'corr-descmap', 'panic', 'crash', 'race'},
     'C14': {'prop-nocopy-set', 'prop-nocopy-cap', 'prop-nocopy-view', 'prop-input-alias', 'prop-memory', 'corr-value', 'panic', 'crash'},
-    'C17': {'prop-invalid-size', 'prop-invalid-enc', 'prop-invalid-dec', 'prop-valid-rejected', 'prop-legacy', 'corr-value', 'corr-n', 'corr-err-vs-ok', 'corr-ok-vs-err', 'corr-bytes', 'corr-size', 'prop-rt-value', 'prop-size', 'panic', 'crash'},
+    'C17': {'corr-sizepanic', 'corr-encerr', 'prop-invalid-size', 'prop-invalid-enc', 'prop-invalid-dec', 'prop-valid-rejected', 'prop-legacy', 'corr-value', 'corr-n', 'corr-err-vs-ok', 'corr-ok-vs-err', 'corr-bytes', 'corr-size', 'prop-rt-value', 'prop-size', 'panic', 'crash'},
     'C18': {'prop-allocs', 'panic', 'crash'},
     'C09': {'ref-err-vs-ok', 'ref-ok-vs-err', 'ref-errfield', 'ref-errclass', 'corr-bitset', 'corr-err-vs-ok', 'corr-ok-vs-err', 'corr-errclass', 'corr-errfield', 'corr-bytes', 'panic', 'crash'},
     'C10': {'ref-value', 'corr-bytes', 'corr-value', 'corr-size', 'prop-rt-value', 'panic', 'crash'},
